@@ -13,6 +13,8 @@ type KeyCase struct {
 	NoLogs bool   `json:"nologs"`
 	// BusySinkMs: the reader of the MIDI output is busy for this long when the device disconnects (see EngineOpts)
 	BusySinkMs int `json:"busy_sink_ms,omitempty"`
+	// Bystander: steps played on a second device of the same configuration before the history starts (see EngineOpts)
+	Bystander []Step `json:"bystander,omitempty"`
 }
 
 type walkStep struct {
@@ -58,7 +60,7 @@ func doWalk(prop string, c *KeyCase) (*walk, *Violation) {
 		return nil, v
 	}
 	w := &walk{Case: c, Cfg: cfg, TOML: text, Model: NewModel(c.D)}
-	w.Run = RunDevice(cfg, c.D, c.Steps, EngineOpts{NoLogs: c.NoLogs, BusySinkMs: c.BusySinkMs})
+	w.Run = RunDevice(cfg, c.D, c.Steps, EngineOpts{NoLogs: c.NoLogs, BusySinkMs: c.BusySinkMs, Bystander: c.Bystander})
 	if w.Run.Panic != "" {
 		return w, violation(prop, "panic", "", "device code panicked: %s", w.Run.Panic)
 	}
@@ -181,6 +183,7 @@ func checkC01(c KeyCase) (bool, *Violation) {
 	classifyIf(heldAtCut, "disconnect with a key or axis held")
 	classifyIf(heldAtCut && c.BusySinkMs > 0, "disconnect with notes held while the MIDI output is not being read")
 	classify("mode " + c.D.Mode)
+	classifyIf(len(c.Bystander) > 0, "a second device of the same model holds keys meanwhile")
 	return (stateChangeWhileHeld && overlap) || heldAtCut, nil
 }
 
